@@ -2392,6 +2392,30 @@ pub struct Attempts {
 }
 
 /// Check 2: after `Err(retry R)` the next call is exactly R, unless the budget is exhausted.
+pub fn send_op_name(k: SendKind) -> &'static str {
+    match k {
+        SendKind::Send => "send",
+        SendKind::TrySend => "try_send",
+        SendKind::BlockingSend => "blocking_send",
+        SendKind::TokioSend => "tokio_send",
+        SendKind::TokioBlockingSend => "tokio_blocking_send",
+    }
+}
+
+fn note_expired_quiescence(h: &History, r: &mut Report, prop: &str) {
+    for qr in &h.quiesce {
+        if qr.q.is_none() {
+            r.observe("quiescence-rounds:watchdog-expired", 1);
+            r.inconclusive(format!(
+                "{} quiescence step ({}): the receiver did not begin {} idle waits before the watchdog / poll budget expired",
+                prop,
+                h.plan.shape(),
+                QUIESCE_IDLE_STEPS
+            ));
+        }
+    }
+}
+
 pub fn classify_attempts(h: &History, budget: Option<u32>) -> Attempts {
     let mut a = Attempts { first: Vec::new(), problems: Vec::new(), retried_chains: 0, exhausted_chains: 0 };
     let mut expect: Option<Vec<Id>> = None;
@@ -2493,6 +2517,7 @@ pub fn check_c06(h: &History, budget: Option<u32>, r: &mut Report) -> Seen {
     if let Some(s) = &h.stuck {
         r.inconclusive(format!("C06 sequential history seed={} case={}: {}", h.plan.seed, h.plan.case, s));
     }
+    note_expired_quiescence(h, r, "C06");
     let mut viol = |sig: &str, what: String, ids: &[Id], extra: Json| {
         r.violation(
             &format!("{}:{}", sig, shape),
@@ -2651,6 +2676,48 @@ pub fn check_c06(h: &History, budget: Option<u32>, r: &mut Report) -> Seen {
         }
     }
 
+    // check 6: quiescence. With the receiver alive and nothing else touching the channel, every
+    // accepted item (minus truncations) is handed to the processor before the receiver has begun
+    // K further idle waits
+    for qr in &h.quiesce {
+        let q = match qr.q {
+            Some(q) => q,
+            None => continue,
+        };
+        let mut stuck: Vec<&SendRec> = Vec::new();
+        for s in &h.sends {
+            if !s.accepted || s.ret > qr.after {
+                continue;
+            }
+            if cleared.get(&s.id).map(|t| *t < q).unwrap_or(false) {
+                continue;
+            }
+            let taken = delivered.get(&s.id).map(|k| h.batches[*k].call < q).unwrap_or(false);
+            if !taken {
+                stuck.push(s);
+            }
+        }
+        if let Some(s) = stuck.first() {
+            let ids: Vec<Id> = stuck.iter().take(6).map(|s| s.id).collect();
+            viol(
+                &format!("C06:accepted-item-not-taken:receiver-idle:{}", send_op_name(s.kind)),
+                format!(
+                    "{}.{} was accepted by {} (returned at stamp {}); afterwards nothing touched the channel, the receiver began {} idle waits (until stamp {}) and still had not handed it to the processor ({} item(s) pending; last operation aimed {:?})",
+                    s.id.who,
+                    s.id.n,
+                    send_op_name(s.kind),
+                    s.ret,
+                    qr.idle_steps_seen,
+                    q,
+                    stuck.len(),
+                    qr.aim
+                ),
+                &ids,
+                json!({"quiescence": {"after": qr.after, "judged_at": q, "idle_waits_begun": qr.idle_steps_seen, "last_operation": format!("{:?} of {}.{}", qr.op, qr.item.who, qr.item.n)}}),
+            );
+        }
+    }
+
     // check 5: the queue model's view (sequential mode)
     if let Some(m) = &h.model {
         let firsts: Vec<&Vec<Id>> = h.batches.iter().enumerate().filter(|(k, _)| att.first[*k]).map(|(_, b)| &b.items).collect();
@@ -2701,6 +2768,32 @@ pub fn check_c07(h: &History, r: &mut Report) -> (u64, u64) {
             &format!("{} panicked on the caller's thread: {}", op, msg),
             h.case_json(Json::Null),
         );
+    }
+    note_expired_quiescence(h, r, "C07");
+    // quiescence: a callback flush requested right after the last sender operation, with nothing
+    // else touching the channel and no processor failure, has completed before the receiver
+    // has begun K further idle waits
+    for qr in &h.quiesce {
+        let (q, fi) = match (qr.q, qr.flush) {
+            (Some(q), Some(fi)) => (q, fi),
+            _ => continue,
+        };
+        let f = match h.flushes.get(fi) {
+            Some(f) => f,
+            None => continue,
+        };
+        let done = f.done.map(|d| d < q).unwrap_or(false);
+        let all_ok = h.batches.iter().filter(|b| b.ret == 0 || (b.ret > f.req && b.call < q)).all(|b| b.out == Out::Ok);
+        if !done && all_ok {
+            r.violation(
+                &format!("C07:flush-not-completed-at-quiescence:callback:{}", shape),
+                &format!(
+                    "a callback flush requested at stamp {} right after the last sender operation had not completed when the receiver had begun {} idle waits (stamp {}) although nothing else touched the channel and no processor call failed",
+                    f.req, qr.idle_steps_seen, q
+                ),
+                h.case_json(json!({"flush": {"requested": f.req, "completed": f.done}, "quiescence": {"after": qr.after, "judged_at": q}, "witness": h.witness(&[qr.item])})),
+            );
+        }
     }
     // per item: first call, last call, last return over all attempts containing it
     struct A {
@@ -2816,6 +2909,22 @@ pub fn observe_history(h: &History, r: &mut Report) {
     r.observe("model-snapshots-compared", h.snapshots_compared);
     r.observe("ops-injected-at-receiver-points", h.injected_ops);
     r.observe(&format!("histories:{}", h.plan.shape()), 1);
+    for qr in &h.quiesce {
+        if qr.q.is_some() {
+            r.observe(
+                match qr.aim {
+                    TailAim::None => "quiescence-rounds:last-op-unaimed",
+                    TailAim::PreCall(_) => "quiescence-rounds:receiver-held-between-saw-empty-and-idle",
+                    TailAim::AtLock(_) => "quiescence-rounds:last-op-delayed-before-its-lock",
+                },
+                1,
+            );
+            r.observe(&format!("quiescence-rounds:last-op:{}", send_op_name(qr.op)), 1);
+            if qr.flush.is_some() {
+                r.observe("quiescence-rounds:with-flush-request", 1);
+            }
+        }
+    }
     note_partition(h.partition_sig());
     if let Some(sig) = h.interleaving_sig() {
         r.nontrivial(&sig);
